@@ -1129,6 +1129,7 @@ C03_main(const char *tier, const char *replay)
 }
 
 /* ======================================================================= C04: layouts */
+void C09_grchunk_case(long idx, void *ctx); /* harness/c09_gr.c: chunked raster images */
 static void
 shapes_c04(int thorough)
 {
@@ -1443,6 +1444,10 @@ C04_main(const char *tier, const char *replay)
             biglinked_case(cfg[1], NULL);
             return 0;
         }
+        if (cfg[0] == -6 && ncfg >= 7) {
+            C09_grchunk_case(cfg[1] + 5L * ((cfg[2] == 3) + 2L * (cfg[3] + 2L * (cfg[4] + 3L * (cfg[5] + 3L * cfg[6])))), NULL);
+            return 0;
+        }
         if (cfg[0] == -4) {
             shapes_c04(thorough);
             if (cfg[1] >= NPLAN) {
@@ -1468,13 +1473,18 @@ C04_main(const char *tier, const char *replay)
     mc_round_begin("multi-record writes across linked-block tables");
     mc_foreach(12, biglinked_case, NULL, 1, 300);
     mc_round_end();
-    mc_count("evaluations", mc_get("histories") + mc_get("chunks_read_whole") + 12);
+    mc_round_begin("raster images: whole-chunk reads vs region reads, every interlace, three kinds of session");
+    mc_foreach(360, C09_grchunk_case, NULL, 1, 300);
+    mc_round_end();
+    mc_count("evaluations", mc_get("histories") + mc_get("chunks_read_whole") + 12 + 360);
     mc_rule("extents of rank 1 (1..5), rank 2 (2x2, 3x2, 2x3, 4x3) and rank 3 (2x3x2): contiguous baseline; chunked with EVERY chunk shape c_i in [1, n_i+1] "
             "(incl. shapes that do not divide the extent and chunks larger than it) x chunk-cache sizes x DD-block sizes; chunked+compressed and compressed "
             "(RLE, deflate, skipping-Huffman; more parameters in thorough); n-bit; external file at offset 0 and 5; unlimited dimension in linked blocks with "
             "SDsetblocksize default / one element / 7 bytes. Every configuration runs the C03 slab-write histories against the same array model (so every layout "
             "agrees with the contiguous baseline cell by cell), and chunked datasets additionally: every second chunk written with SDwritechunk, a hyperslab "
-            "write on top, then every chunk read whole with SDreadchunk in the same session and after reopen (unwritten chunks = fill value). distinct = "
+            "write on top, then every chunk read whole with SDreadchunk in the same session and after reopen (unwritten chunks = fill value). Chunked raster images "
+            "(5 square geometries x 1/3 components x 1/2-byte pixels x creation interlace x plain/deflate chunks): every chunk read whole with GRreadchunk under each requested "
+            "interlace against the pixels written and against GRreadimage of the same region, in the writing session and after reopening read-write and read-only. distinct = "
             "configurations completed.");
     return 0;
 }
